@@ -87,7 +87,9 @@ def process_items_unit(ctx):
     vc = VC(ctx, loops={"forever": ForeverLoop(st)})
     env = {"__vc": vc, "queue": Q(), "process_item": process_item, "DONE": DONE}
     f = get(REL, "worker_thread.<locals>.process_items", cut_loops={0: "forever"}).compile_into(env)
-    kind, val = _catch(ctx, f)
+    from ujvc.units import call_by_name
+
+    kind, val = _catch(ctx, lambda: call_by_name(f, queue=env["queue"], process_item=process_item))
     # reached only when the iteration left the loop: the DONE return or an escaping exception
     ctx.check("exit:task_done-exactly-once-for-the-last-get", bool(st["gets"] == 1 and st["dones"] == 1))
     if kind == "ret":
@@ -95,6 +97,61 @@ def process_items_unit(ctx):
     else:
         ctx.check("raises-only-what-process_item-raised", bool(isinstance(val, ItemBoom) and st["processed"] == [st["item"]]))
     return kind
+
+
+@unit("coordinator.worker_thread", props=["C07", "C01", "C04", "C10"], functions=[(REL, "worker_thread"), (REL, "thread")],
+      assumptions=["T4 Thread(target, args, kwargs).start() runs target(*args, **kwargs) exactly once in a new thread"], min_obligations=3, kind="concrete-parametric")
+def worker_thread_unit(ctx):
+    """worker_thread(queue, process_item) starts exactly ONE thread whose target is the process_items loop on this very queue and
+    process_item (shape-independent: the target is run here on a scripted queue), and returns that thread"""
+    from ujvc.units import base_env
+
+    created = []
+
+    class Thread:
+        def __init__(self, group=None, target=None, name=None, args=(), kwargs=None, *, daemon=None):
+            self.target, self.args, self.kwargs, self.started = target, tuple(args), dict(kwargs or {}), 0
+            created.append(self)
+
+        def start(self):
+            self.started += 1
+
+    class _threading:
+        pass
+
+    _threading.Thread = Thread
+    X = object()
+    script = [X, None]  # None stands for DONE (filled below)
+    log = []
+
+    class Q:
+        def get(self):
+            log.append("get")
+            return script.pop(0)
+
+        def task_done(self):
+            log.append("task_done")
+
+    def PI(item):
+        log.append(("process_item", item))
+
+    env = base_env(REL)
+    script[1] = env["DONE"]
+    env.update({"threading": _threading})
+    get(REL, "thread").compile_into(env)
+    wt = get(REL, "worker_thread", native_loops="all").compile_into(env)
+    q = Q()
+    r = wt(q, PI)
+    ok = len(created) == 1 and created[0].started == 1 and r is created[0]
+    ctx.check("worker_thread:creates-and-starts-exactly-one-thread-and-returns-it", bool(ok))
+    if not ok:
+        return "bad"
+    ctx.check("worker_thread:nothing-ran-in-the-calling-thread", bool(log == []))
+    t = created[0]
+    t.target(*t.args, **t.kwargs)
+    ctx.check("worker_thread:the-thread's-target-is-the-process_items-loop-on-THIS-queue-and-process_item",
+              bool(log == ["get", ("process_item", X), "task_done", "get", "task_done"]), info=str(log))
+    return "ok"
 
 
 # ---------------------------------------------------------------------------------------------------
